@@ -299,7 +299,11 @@ func runSchedule(labels []string) (actual []string, obs string, unplanned int) {
 		if s.IgnoreST {
 			ign = 1
 		}
-		t := fmt.Sprintf("%d/%d/%s/%d/%s", pt, s.EscGen, s.State, ign, it)
+		lk := 0
+		if s.Locked {
+			lk = 1
+		}
+		t := fmt.Sprintf("%d/%d/%s/%d/%d/%s", pt, s.EscGen, s.State, ign, lk, it)
 		if panicMsg != "" {
 			t += "/panic:" + panicMsg
 			panicMsg = ""
@@ -443,11 +447,11 @@ func runSchedule(labels []string) (actual []string, obs string, unplanned int) {
 	// observations of an inserted X: the callback parked in front of Lock, nothing else changed
 	for i, t := range obsToks {
 		if t == "?" {
-			prev := "0/ground/0"
+			prev := "0/ground/0/0"
 			if i > 0 {
 				f := strings.Split(obsToks[i-1], "/")
-				if len(f) >= 5 {
-					prev = f[1] + "/" + f[2] + "/" + f[3]
+				if len(f) >= 6 {
+					prev = f[1] + "/" + f[2] + "/" + f[3] + "/" + f[4]
 				}
 			}
 			obsToks[i] = "30/" + prev + "/-"
